@@ -32,6 +32,6 @@ echo "---- 3. full suite with change (expect PASS, TestBunch2 flaky)"
 for f in $D/*.go; do [ -e "$f" ] || continue; b=$(basename $f); find $WT -name $b -not -path '*/_out/*' -delete; done
 (cd $WT && go build ./... && go test -vet=off -count=1 ./... > /tmp/try-$$.log 2>&1; grep -c '^ok' /tmp/try-$$.log | sed 's/^/SUITE-OK-PACKAGES=/'; grep '^--- FAIL\|^FAIL\|panic' /tmp/try-$$.log | head; rm -f /tmp/try-$$.log)
 echo "---- 4. check $P on the changed tree"
-VERIF_REPO=$WT VERIF_EVIDENCE_DIR=/tmp/try-ev-$$ /verif/bin/verifcheck check -prop $P 2>&1 | grep -v '^VIOLATION' | tail -12
+VERIF_REPO=$WT VERIF_EVIDENCE_DIR=/tmp/try-ev-$$ /verif/bin/verifcheck check -prop $P 2>/dev/null | grep '^violated\|^not-established\|^KNOWN\|^C[0-9][0-9] ' | cut -c1-400 | head -16
 echo "exit=$?"
 rm -rf /tmp/try-ev-$$
